@@ -15,6 +15,8 @@ Step(ln) ==
      [] ln.e = "SSend"     -> SSend /\ last'.m = ln.a
      [] ln.e = "OPoll"     -> OPoll
      [] ln.e = "OWait"     -> OWait
+     [] ln.e = "OWaitTimed" -> OWaitTimed
+     [] ln.e = "WakeTimeout" -> (WakeTimeout(ln.t) \/ Interrupt(ln.t)) /\ last'.d = ln.d
      [] ln.e = "OStart"    -> OStart /\ last'.initial = (ln.a = 1)
      [] ln.e = "OStart2"   -> OStart2
      [] ln.e = "OShutdown" -> OShutdown
@@ -36,7 +38,7 @@ TReset == /\ l <= N /\ TraceLog[l].e = "Reset"
           /\ lt["O"].pc = "idle" /\ lt["S"].pc = "idle" /\ ~running
           /\ q' = [d \in Dirs |-> <<>>] /\ sig' = [d \in Dirs |-> 0] /\ alloc' = ~Sockets /\ eof' = FALSE /\ running' = FALSE /\ ended' = FALSE
           /\ lt' = [t \in Thr |-> IF t = "I" THEN [L0 EXCEPT !.pc = "off"] ELSE L0]
-          /\ round' = 0 /\ nsent' = 0 /\ xsent' = 0 /\ npolls' = 0
+          /\ round' = 0 /\ nsent' = 0 /\ xsent' = 0 /\ npolls' = 0 /\ tloop' = (TraceLog[l].tl = 1) /\ nintr' = 0
           /\ sentH' = [d \in Dirs |-> <<>>] /\ recvH' = [d \in Dirs |-> <<>>] /\ handled' = <<>> /\ last' = [a |-> "Init"]
           /\ l' = l + 1
 TraceNext == Evented \/ TReset
